@@ -3,6 +3,8 @@
 package sm2
 
 import (
+	"bufio"
+	"bytes"
 	"errors"
 	"fmt"
 	"io"
@@ -30,6 +32,7 @@ type scriptReader struct {
 	failAt       int   // absolute byte offset at which the source fails (-1 = only at end of data)
 	failErr      error // error returned at failAt (nil => io.EOF)
 	failWithData bool  // deliver the last bytes and the error in the same call
+	transient    bool  // the failure is reported once; later calls deliver the rest of the data
 	calls        int
 	events       []rdEvent
 	failed       bool
@@ -76,12 +79,56 @@ func (s *scriptReader) Read(p []byte) (int, error) {
 			s.events = append(s.events, rdEvent{Req: len(p), N: n})
 			return n, nil // error comes with the next call
 		}
-		s.failed = true
+		if s.transient && s.failAt >= 0 && s.failAt < len(s.data) {
+			// one-off failure (EINTR/EAGAIN style): the data after failAt is still there
+			s.failAt = -1
+		} else {
+			s.failed = true
+		}
 		s.events = append(s.events, rdEvent{Req: len(p), N: n, Err: e.Error()})
 		return n, e
 	}
 	s.events = append(s.events, rdEvent{Req: len(p), N: n})
 	return n, nil
+}
+
+// byteScript is the same source with the optional io.ByteReader interface as well (bufio.Reader,
+// bytes.Buffer, strings.Reader all have it): a library that type-switches on its source must
+// treat every failure the same way on that path.
+type byteScript struct{ *scriptReader }
+
+func (b byteScript) ReadByte() (byte, error) {
+	var one [1]byte
+	for i := 0; i < 8; i++ {
+		n, err := b.scriptReader.Read(one[:])
+		if n == 1 {
+			// like bufio: a byte delivered together with an error is returned first, the error on the next call
+			return one[0], nil
+		}
+		if err != nil {
+			return 0, err
+		}
+	}
+	return 0, io.ErrNoProgress
+}
+
+// sourceKinds wraps a scripted source the ways callers do.
+var sourceKindNames = []string{"plain", "bytereader", "bufio", "bufio16", "limited", "multi"}
+
+func wrapSource(s *scriptReader, kind int) io.Reader {
+	switch kind {
+	case 1:
+		return byteScript{s}
+	case 2:
+		return bufio.NewReader(s)
+	case 3:
+		return bufio.NewReaderSize(s, 16)
+	case 4:
+		return io.LimitReader(s, 1<<40)
+	case 5:
+		return io.MultiReader(bytes.NewReader(nil), s)
+	}
+	return s
 }
 
 // crossesUnit reports whether some Read asked for bytes beyond the current
